@@ -390,6 +390,33 @@ fn unknown(cx: &mut Ctx, count: u64, seed: u64) {
     }
 }
 
+/// Every short token sequence enumerated by TLC (XtTokens), concretised over each format's token
+/// alphabet: the same bytes as a slice, as a reader in one piece and as a reader byte by byte, with the
+/// format named and with detection (C02's small-scope exhaustive part).
+fn tokens(cx: &mut Ctx) {
+    let path = std::env::var("XT_TOKS").expect("XT_TOKS");
+    let text = std::fs::read_to_string(path).expect("token file");
+    for (n, line) in text.lines().enumerate() {
+        let Ok(idx) = serde_json::from_str::<Vec<usize>>(line) else { continue };
+        for fmt in ["json", "yaml", "toml", "msgpack"] {
+            let alpha = crate::total::alphabet(fmt);
+            let mut bytes = vec![];
+            for i in &idx {
+                bytes.extend_from_slice(alpha[(i - 1) % alpha.len()]);
+            }
+            let bytes = Rc::new(bytes);
+            for (k, from) in [fmt, "detect"].into_iter().enumerate() {
+                let to = TARGETS[(n + idx.len() + k) % TARGETS.len()];
+                for m in [Mode::Slice, Mode::Reader(Sched::All), Mode::Reader(Sched::Fixed(1))] {
+                    let c = CallSpec { bytes: bytes.clone(), from, true_fmt: None, mode: m, rfault: None, docs: None, values: None, over_report: None };
+                    let case = CaseSpec { to, calls: vec![c], wfault: None, accept: Accept::All, keyed: true, buffered: false, key_text: None, label: format!("tokens/{fmt}/{}", idx.len()) };
+                    cx.run(&case, idx.len() >= 2);
+                }
+            }
+        }
+    }
+}
+
 /// Long streams of small documents, one document (or a fraction, or several) per read (C05).
 fn lag(cx: &mut Ctx, count: u64, seed: u64) {
     for i in 0..count {
@@ -658,6 +685,7 @@ pub fn record(scenario: &str, out_path: &str, count: u64) {
             "histories" => histories(&mut cx, count, seed),
             "faults" => faults(&mut cx, count, seed),
             "unknown" => unknown(&mut cx, count, seed),
+            "tokens" => tokens(&mut cx),
             "lag" => lag(&mut cx, count, seed),
             "toml" => toml(&mut cx, count, seed),
             "witnesses" => witnesses(&mut cx),
